@@ -117,7 +117,8 @@ func init() {
 		return p
 	})
 	reg("time.NewTimer", func(fr *frame, args []value) value {
-		p, _ := E.newTicker("Timer", E.where(fr.g))
+		p, ch := E.newTicker("Timer", E.where(fr.g))
+		ch.timer = true // armed state is tracked for NewTimer timers only (time.After / AfterFunc channels as before)
 		return p
 	})
 	reg("time.After", func(fr *frame, args []value) value {
@@ -134,8 +135,33 @@ func init() {
 	})
 	reg("(*time.Ticker).Stop", func(fr *frame, args []value) value { return nil })
 	reg("(*time.Ticker).Reset", func(fr *frame, args []value) value { return nil })
-	reg("(*time.Timer).Stop", func(fr *frame, args []value) value { return True })
-	reg("(*time.Timer).Reset", func(fr *frame, args []value) value { return True })
+	// a Timer is armed from NewTimer / Reset until it fires or is stopped; Stop / Reset report whether it was armed
+	timerChan := func(a value) *Chan {
+		if p, ok := a.(*value); ok && p != nil {
+			if s, ok := (*p).(structure); ok {
+				if ch, ok := s[fieldIndex(pkgType("time", "Timer"), "C")].(*Chan); ok {
+					return ch
+				}
+			}
+		}
+		return nil
+	}
+	reg("(*time.Timer).Stop", func(fr *frame, args []value) value {
+		if ch := timerChan(args[0]); ch != nil {
+			was := !ch.disarmed
+			ch.disarmed = true
+			return ConstBool(was)
+		}
+		return True
+	})
+	reg("(*time.Timer).Reset", func(fr *frame, args []value) value {
+		if ch := timerChan(args[0]); ch != nil {
+			was := !ch.disarmed
+			ch.disarmed = false
+			return ConstBool(was)
+		}
+		return True
+	})
 	reg("(time.Time).String", func(fr *frame, args []value) value { return mkStr("<time>") })
 	reg("(time.Time).Format", func(fr *frame, args []value) value { return mkStr("<time>") })
 	reg("(time.Duration).String", func(fr *frame, args []value) value {
@@ -154,8 +180,14 @@ func init() {
 			return False
 		}
 		ch := E.tickers[i]
+		if ch.timer && ch.disarmed {
+			return False // a timer that fired or was stopped and was not Reset does not fire again
+		}
 		E.clockAdvance()
 		idx, _, _ := E.selectOp(fr.g, []selCase{{ch: ch, send: true, val: E.now()}}, true, "tick")
+		if ch.timer && idx == 0 {
+			ch.disarmed = true
+		}
 		return ConstBool(idx == 0)
 	}
 	verifFuncs["verifNumTickers"] = func(fr *frame, a []value) value { return mkI(len(E.tickers)) }
